@@ -447,12 +447,14 @@ def constants_agree(ctx, prog, rule):
             for st in f.blocks[bi]["stmts"]:
                 for o in operands_of_rvalue(st["rv"]):
                     v = const_int(o)
-                    if v in (PAGE, PAYLOAD):
+                    if v is not None and 900 <= v <= 1200:
                         vals[v] += 1
     d = prog.fn("<header::Header as std::default::Default>::default")
     t = strip(Resolver(d).local(0))
     hp = const_val(dict(zip(t[1][3], t[2])).get("page_size")) if t[0] == "agg" else None
     n = prog.fn(PW + "new")
     buf_ty = [st["rv"]["n"].strip() for bi in n.cfg() for st in n.blocks[bi]["stmts"] if st["rv"]["k"] == "repeat"]
-    ok = vals[PAGE] >= 2 and vals[PAYLOAD] >= 4 and hp == PAGE and len(buf_ty) == 1 and buf_ty[0].startswith("1024")
-    ctx.ob(rule, "constants/page-1024-payload-1020", ok, "writer uses 1024 x%d and 1020 x%d, header page_size=%s, page_buffer length %s; reader uses page_size - 4 (C07-R3/R4)" % (vals[PAGE], vals[PAYLOAD], hp, buf_ty), nontrivial=False)
+    # every page-sized constant of the write path is one of the two (how often each occurs depends on the spelling)
+    others = sorted(v for v in vals if v not in (PAGE, PAYLOAD))
+    ok = vals[PAGE] >= 1 and vals[PAYLOAD] >= 1 and not others and hp == PAGE and len(buf_ty) == 1 and buf_ty[0].startswith("1024")
+    ctx.ob(rule, "constants/page-1024-payload-1020", ok, "writer uses 1024 x%d and 1020 x%d and no other constant between 900 and 1200 (%s), header page_size=%s, page_buffer length %s; reader uses page_size - 4 (C07-R3/R4)" % (vals[PAGE], vals[PAYLOAD], others, hp, buf_ty), nontrivial=False)
